@@ -13,6 +13,7 @@ Definition loop_okP (st : cst) (rs : regfile) (D : ident -> bool) (asg : ident -
   match loops st with
   | [] => True
   | li :: _ =>
+    l_start li <= ip st /\
     forall lr, l_result li = Some lr ->
       lr < N.of_nat (length rs) /\
       (lr < nlocals st \/ (tbase st <= lr /\ lr < tbase st + tcount st)) /\
@@ -20,12 +21,13 @@ Definition loop_okP (st : cst) (rs : regfile) (D : ident -> bool) (asg : ident -
   end.
 
 Lemma loop_okP_ext : forall st st1 (rs rs1 : regfile) D (asg asg1 : ident -> bool),
-  ext st st1 -> wfst st1 -> tcount st <= tcount st1 -> length rs1 = length rs ->
+  ext st st1 -> wfst st1 -> tcount st <= tcount st1 -> length rs1 = length rs -> ip st <= ip st1 ->
   (forall x, asg1 x = true -> asg x = true) ->
   loop_okP st rs D asg -> loop_okP st1 rs1 D asg1.
 Proof.
-  intros st st1 rs rs1 D asg asg1 E W1 TC LN AS LO. unfold loop_okP in *.
+  intros st st1 rs rs1 D asg asg1 E W1 TC LN IP AS LO. unfold loop_okP in *.
   rewrite (ext_loops _ _ E). destruct (loops st) as [|li ls]; [exact Logic.I|].
+  destruct LO as (LS & LO). split; [lia|].
   intros lr L. destruct (LO lr L) as (A1 & A2 & A3).
   pose proof (ext_tbase _ _ E). pose proof (ext_len _ _ E). splits.
   - lia.
@@ -97,7 +99,7 @@ Section SimI.
   Local Notation ectx := (fixed_or_none resreg).
   Local Notation dmode := (match resreg with None => true | Some _ => false end).
 
-  Definition post_arms (st st' : cst) (rs : regfile) (D : ident -> bool) (s : env)
+  Definition post_arms (F st st' : cst) (rs : regfile) (D : ident -> bool) (s : env)
              (prog : code) (brk : N) (asg : ident -> bool) (o : outcome) : Prop :=
     let fr (li : option loopinfo) (rs' : regfile) :=
         forall k, k < tbase st + tcount st -> Some k <> resreg ->
@@ -106,7 +108,7 @@ Section SimI.
     match o with
     | ONorm v s' =>
       exists rs', star pool prog (ip st) rs (ip st') rs' /\ length rs' = length rs /\
-                  inv st' (dirty st' ectx D) s' rs' /\
+                  inv F (dirty F ectx D) s' rs' /\
                   (forall reg, resreg = Some reg -> get rs' reg = Some v) /\
                   fr None rs' /\ (forall x, asg x = false -> s' x = s x)
     | OBrk v s' =>
@@ -114,7 +116,7 @@ Section SimI.
       | [] => False
       | li :: _ =>
         exists rs', star pool prog (ip st) rs brk rs' /\ length rs' = length rs /\
-                    inv st' (dirty st' ectx D) s' rs' /\
+                    inv F (dirty F ectx D) s' rs' /\
                     (forall lr, l_result li = Some lr -> get rs' lr = Some v) /\
                     fr (Some li) rs' /\ (forall x, asg x = false -> s' x = s x)
       end
@@ -123,7 +125,7 @@ Section SimI.
       | [] => False
       | li :: _ =>
         exists rs', star pool prog (ip st) rs (l_start li) rs' /\ length rs' = length rs /\
-                    inv st' (dirty st' ectx D) s' rs' /\
+                    inv F (dirty F ectx D) s' rs' /\
                     (forall lr, l_result li = Some lr -> get rs' lr = Some VNull) /\
                     fr (Some li) rs' /\ (forall x, asg x = false -> s' x = s x)
       end
@@ -145,14 +147,15 @@ Section SimI.
       match els with Some a => dropped dmode a = false | None => True end ->
       (hj = false -> (exists ct, arms = [ct]) /\ els = None /\ resreg = None) ->
       (ip st' = ip st + code_size c /\ ext st st' /\ wfst st' /\ tcount st' = tcount st) /\
-      forall n s rs D prog brk,
+      forall n s rs D prog brk F,
+        ext st' F -> wfst F ->
         any_arms known_expr arms = false -> any_opt known_expr els = false ->
-        inv st D s rs ->
+        inv F D s rs ->
         (forall x, D x = true -> any_arms (reads x) arms = false /\ any_opt (reads x) els = false) ->
         res_ok st rs arms ->
         (any_arms esc arms || any_opt esc els = true -> loop_okP st rs D (asg_arms arms els)) ->
         tbase st + tused st' <= N.of_nat (length rs) -> cares prog brk (ip st) c ->
-        post_arms st st' rs D s prog brk (asg_arms arms els) (eval_elifs (eval n) s arms els).
+        post_arms F st st' rs D s prog brk (asg_arms arms els) (eval_elifs (eval n) s arms els).
 
   Lemma dirty_ext : forall st2 st' r D x, ext st2 st' -> dirty st2 r D x = true -> dirty st' r D x = true.
   Proof.
@@ -162,16 +165,16 @@ Section SimI.
   Qed.
 
   (* a later part of the arms seen from the start of the arms *)
-  Lemma post_arms_trans : forall st stj st' rs rs1 D s s1 prog brk (asg asg2 : ident -> bool) o,
+  Lemma post_arms_trans : forall F st stj st' rs rs1 D s s1 prog brk (asg asg2 : ident -> bool) o,
     star pool prog (ip st) rs (ip stj) rs1 -> length rs1 = length rs ->
     loops stj = loops st -> tbase stj = tbase st -> tcount stj = tcount st -> ext stj st' ->
     (forall x, asg2 x = true -> asg x = true) ->
     (forall k, k < tbase st + tcount st -> (forall x, asg x = true -> slot_of st' x <> Some k) ->
                get rs1 k = get rs k) ->
     (forall x, asg x = false -> s1 x = s x) ->
-    post_arms stj st' rs1 D s1 prog brk asg2 o -> post_arms st st' rs D s prog brk asg o.
+    post_arms F stj st' rs1 D s1 prog brk asg2 o -> post_arms F st st' rs D s prog brk asg o.
   Proof.
-    intros st stj st' rs rs1 D s s1 prog brk asg asg2 o ST LN LP TB TC E AS FR SF PO.
+    intros F st stj st' rs rs1 D s s1 prog brk asg asg2 o ST LN LP TB TC E AS FR SF PO.
     assert (AF : forall x, asg x = false -> asg2 x = false).
     { intros x AX. destruct (asg2 x) eqn:A2; [|reflexivity]. rewrite (AS _ A2) in AX. discriminate. }
     unfold post_arms in *. rewrite LP, TB, TC in PO. destruct o as [v s'|v s'|s'|ce|]; auto.
@@ -211,18 +214,18 @@ Section SimI.
       { unfold shapeQ in SH. destruct (is_jump a); [tauto|]. 
         destruct resreg; cbn [fixed_or_none shape] in SH; tauto. }
       split; [rewrite app_nil_r; splits; auto|].
-      intros n s rs D prog brk _ K IV RD RO LO B CA. cbn [any_opt] in K. rewrite app_nil_r in CA.
+      intros n s rs D prog brk F EF WFF _ K IV RD RO LO B CA. cbn [any_opt] in K. rewrite app_nil_r in CA.
       cbn [eval_elifs].
       assert (RD' : forall x, D x = true -> reads x a = false).
       { intros x Dx. apply RD in Dx. cbn in Dx. tauto. }
       assert (DO : dest_ok st ectx rs D a).
       { intros d Ed. destruct resreg as [reg|] eqn:RR; cbn in Ed; inversion Ed; subst d.
         destruct (RO reg RR) as (A1 & A2 & A3). splits; auto. intros x Sx.
-        destruct (A3 x Sx) as (_ & F). rewrite EL in F. exact F. }
+        destruct (A3 x Sx) as (_ & FX). rewrite EL in FX. exact FX. }
       assert (LO' : esc a = true -> loop_ok st rs D a).
       { intros E0. cbn [any_arms any_opt orb] in LO. specialize (LO E0). rewrite loop_ok_P.
         eapply loop_okP_ext; eauto using ext_refl; try lia. intros x AX. unfold asg_arms. cbn. exact AX. }
-      specialize (DY n s rs D prog brk K IV RD' DO LO' B CA).
+      specialize (DY n s rs D prog brk F EF WFF K IV RD' DO LO' B CA).
       assert (AS : forall x, asg_arms [] (Some a) x = assigns x a) by reflexivity.
       unfold post_arms. unfold frame, frameL in DY.
       destruct (eval n s a) as [v s'|v s'|s'|ce|]; auto.
@@ -244,28 +247,28 @@ Section SimI.
         * cbn [code_size size ip set_ip tcount]. splits; auto; try lia.
           -- apply ext_set_ip.
           -- apply wfst_set_ip. assumption.
-        * intros n s rs D prog brk _ _ IV RD RO LO B CA. cbn [eval_elifs]. unfold post_arms.
+        * intros n s rs D prog brk F EF WFF _ _ IV RD RO LO B CA. cbn [eval_elifs]. unfold post_arms.
           destruct (RO reg RR) as (A1 & A2 & A3).
           destruct (set_ok rs reg VNull A1) as (rs' & SET).
           apply cares_one in CA; [|reflexivity].
           exists rs'. splits.
           -- cbn [ip set_ip]. apply star_one. rewrite (istep_at _ _ _ _ rs CA). cbn [exec]. unfold put. rewrite SET. reflexivity.
           -- eapply set_length; eauto.
-          -- apply inv_set_ip.
-             assert (IV' : inv st (dirty (set_ip st (ip st + size (ISetNull reg))) ectx D) s rs).
-             { eapply inv_weaken; eauto. intros. apply dirty_mono. assumption. }
-             eapply inv_set; eauto. destruct A2 as [A2|[A2 _]]; [right|left; assumption].
-             split; [assumption|]. intros x Sx. unfold dirty. rewrite RR. cbn [fixed_or_none].
-             rewrite slot_of_set_ip, Sx, N.eqb_refl. apply orb_true_r.
+          -- assert (IV' : inv F (dirty F ectx D) s rs).
+             { eapply inv_weaken; [exact IV|]. intros. apply dirty_mono. assumption. }
+             eapply (inv_setF st); eauto.
+             { eapply ext_trans; [apply ext_set_ip|exact EF]. }
+             destruct A2 as [A2|[A2 _]]; [right|left; assumption].
+             split; [assumption|]. intros x Sx. rewrite RR. cbn [fixed_or_none]. apply dirty_self. assumption.
           -- intros reg0 RG. rewrite RR in RG. inversion RG; subst. eapply get_set_same; eauto.
           -- intros k K1 K2 _ K3. eapply get_set_other; eauto. intros ->. apply K2. symmetry. exact RR.
           -- intros. reflexivity.
       + unfold ret in H. inversion H; subst u st' c; clear H. split.
         * cbn [code_size]. splits; auto using ext_refl. lia.
-        * intros n s rs D prog brk _ _ IV RD RO LO B CA. cbn [eval_elifs]. unfold post_arms.
+        * intros n s rs D prog brk F EF WFF _ _ IV RD RO LO B CA. cbn [eval_elifs]. unfold post_arms.
           exists rs. splits; auto.
           -- constructor.
-          -- eapply inv_weaken; eauto. intros. apply dirty_mono. assumption.
+          -- eapply inv_weaken; [exact IV|]. intros. apply dirty_mono. assumption.
           -- intros reg RG. congruence.
   Qed.
 
@@ -319,7 +322,9 @@ Section SimI.
       + rewrite !code_size_app. cbn [code_size size]. rewrite !code_size_app. cbn [app code_size].
         destruct hj; cbn [code_size size]; lia.
       + lia.
-    - intros n s rs D prog brk Ka Ke IV RD RO LO B CA. cbn [eval_elifs].
+    - intros n s rs D prog brk F EF WFF Ka Ke IV RD RO LO B CA. cbn [eval_elifs].
+      assert (EF1 : ext st1 F) by (eapply ext_trans; eauto).
+      assert (EF2 : ext st2 F) by (eapply ext_trans; eauto).
       cbn [any_arms] in Ka. apply orb_false_elim in Ka as [Ka Kr]. apply orb_false_elim in Ka as [Kc Kt].
       cbn [app] in CA. apply cares_app in CA as [CA1 CA]. apply cares_cons in CA as [CAJ CA]; [|reflexivity].
       apply cares_app in CA as [CAt CA3].
@@ -333,7 +338,7 @@ Section SimI.
       { intros x Dx. destruct (RD x Dx) as (R1 & R2). cbn in R1. apply orb_false_elim in R1 as [_ R1]. auto. }
       assert (LOc : esc c = true -> loop_ok st rs D c) by (intros; congruence).
       assert (B1 : tbase st + tused st1 <= N.of_nat (length rs)) by (pose proof (ext_used _ _ E1'); lia).
-      specialize (DYc n s rs D prog brk Kc IV RDc (dest_ok_any _ _ _ _) LOc B1 CA1).
+      specialize (DYc n s rs D prog brk F EF1 WFF Kc IV RDc (dest_ok_any _ _ _ _) LOc B1 CA1).
       pose proof (sem_no_esc n c s NEc) as NJ.
       destruct (eval n s c) as [vc s1| | | |]; try contradiction; [|exact DYc|exact Logic.I].
       destruct DYc as (rs1 & S1 & LN1 & IV1 & R1 & FR1 & SF1 & _).
@@ -356,7 +361,6 @@ Section SimI.
       + (* the branch *)
         assert (S1p : star pool prog (ip st) rs (ip st1p) rs1).
         { eapply star_trans; [exact S1|]. apply star_one. rewrite STJ. f_equal. rewrite I1p, IP1a. reflexivity. }
-        assert (IV1p : inv st1p D s1 rs1) by (eapply inv_ext; eauto).
         assert (DOt : dest_ok st1p ectx rs1 D t).
         { intros d Ed. destruct resreg as [reg|] eqn:RR; cbn in Ed; inversion Ed; subst d.
           destruct (RO reg RR) as (A1 & A2 & A3). pose proof (ext_len _ _ E01p). splits.
@@ -365,11 +369,11 @@ Section SimI.
           - intros x Sx. assert (Sx0 : slot_of st x = Some reg).
             { destruct A2 as [A2|A2]; [exact (slot_of_old st st1p x reg E01p A2 Sx)|].
               destruct (slot_of_id _ _ _ Sx) as (L1 & _). pose proof (wf_len _ W1p). lia. }
-            destruct (A3 x Sx0) as (F & _). cbn in F. apply andb_prop in F. tauto. }
+            destruct (A3 x Sx0) as (FX & _). cbn in FX. apply andb_prop in FX. tauto. }
         assert (LOt : esc t = true -> loop_ok st1p rs1 D t).
         { intros E0. rewrite loop_ok_P.
           apply (loop_okP_ext st st1p rs rs1 D (asg_arms ((c, t) :: rest) els) (fun x => assigns x t) E01p W1p);
-            [lia|exact LN1| |].
+            [lia|exact LN1|lia| |].
           - intros x AX. unfold asg_arms. cbn. rewrite AX. rewrite !orb_true_r. reflexivity.
           - apply LO. cbn. rewrite E0. rewrite !orb_true_r. reflexivity. }
         assert (B2 : tbase st1p + tused st2 <= N.of_nat (length rs1)).
@@ -377,7 +381,7 @@ Section SimI.
         assert (CAt' : cares prog brk (ip st1p) ct).
         { match type of CAt with cares _ _ ?pc _ => assert (EQ : pc = ip st1p) by (cbn [size]; lia) end.
           rewrite EQ in CAt. exact CAt. }
-        specialize (DYt n s1 rs1 D prog brk Kt IV1p RDt DOt LOt B2 CAt').
+        specialize (DYt n s1 rs1 D prog brk F EF2 WFF Kt IV1 RDt DOt LOt B2 CAt').
         unfold post_arms. rewrite <- (ext_loops _ _ E01p).
         assert (KD : forall k, Some k <> resreg -> Some k <> dest ectx).
         { intros k K2. destruct resreg; cbn; [exact K2|discriminate]. }
@@ -399,7 +403,6 @@ Section SimI.
           exists rs2. splits; auto.
           -- eapply star_trans; [exact S1p|]. eapply star_trans; [exact A1|exact END].
           -- lia.
-          -- eapply inv_weaken; [eapply inv_ext; [exact A3|exact E2'|exact W3]|]. intros x. apply dirty_ext. exact E2'.
           -- intros reg RG. apply A7. rewrite RG. reflexivity.
           -- intros k K1 K2 _ K3. rewrite A5; auto.
              ++ rewrite TB1p, TC1p. exact K1.
@@ -410,7 +413,6 @@ Section SimI.
           exists rs2. splits; auto.
           -- eapply star_trans; [exact S1p|exact A1].
           -- lia.
-          -- eapply inv_weaken; [eapply inv_ext; [exact A3|exact E2'|exact W3]|]. intros x. apply dirty_ext. exact E2'.
           -- intros k K1 K2 K2' K3. rewrite A5; auto.
              ++ rewrite TB1p, TC1p. exact K1.
              ++ intros x AX. eapply slot_ext_neq; [exact E2'|]. apply K3. auto.
@@ -420,7 +422,6 @@ Section SimI.
           exists rs2. splits; auto.
           -- eapply star_trans; [exact S1p|exact A1].
           -- lia.
-          -- eapply inv_weaken; [eapply inv_ext; [exact A3|exact E2'|exact W3]|]. intros x. apply dirty_ext. exact E2'.
           -- intros k K1 K2 K2' K3. rewrite A5; auto.
              ++ rewrite TB1p, TC1p. exact K1.
              ++ intros x AX. eapply slot_ext_neq; [exact E2'|]. apply K3. auto.
@@ -431,8 +432,6 @@ Section SimI.
         assert (S2j : star pool prog (ip st) rs (ip st2j) rs1).
         { eapply star_trans; [exact S1|]. apply star_one. rewrite STJ. f_equal.
           pose proof (ext_len _ _ E2). rewrite IP2j, I2, I1p, IP1a. lia. }
-        assert (IV2j : inv st2j D s1 rs1).
-        { eapply inv_ext; [exact IV1| |exact W2j]. eapply ext_trans; [exact E1p2|]. eapply ext_trans; [exact E2|exact E22j]. }
         assert (ROj : res_ok st2j rs1 rest).
         { intros reg RG. destruct (RO reg RG) as (A1 & A2 & A3). pose proof (ext_len _ _ E02j). splits.
           - lia.
@@ -440,13 +439,13 @@ Section SimI.
           - intros x Sx. assert (Sx0 : slot_of st x = Some reg).
             { destruct A2 as [A2|A2]; [exact (slot_of_old st st2j x reg E02j A2 Sx)|].
               destruct (slot_of_id _ _ _ Sx) as (L1 & _). pose proof (wf_len _ W2j). lia. }
-            destruct (A3 x Sx0) as (F & F2). cbn in F. apply andb_prop in F. tauto. }
+            destruct (A3 x Sx0) as (FX & F2). cbn in FX. apply andb_prop in FX. tauto. }
         assert (ASr : forall x, asg_arms rest els x = true -> asg_arms ((c, t) :: rest) els x = true).
         { intros x AX. unfold asg_arms in *. cbn. apply orb_true_iff in AX as [AX|AX]; rewrite AX; rewrite ?orb_true_r; reflexivity. }
         assert (LOj : any_arms esc rest || any_opt esc els = true -> loop_okP st2j rs1 D (asg_arms rest els)).
         { intros E0.
           apply (loop_okP_ext st st2j rs rs1 D (asg_arms ((c, t) :: rest) els) (asg_arms rest els) E02j W2j);
-            [lia|exact LN1|exact ASr|].
+            [lia|exact LN1|lia|exact ASr|].
           apply LO. cbn. apply orb_true_iff in E0 as [E0|E0]; rewrite E0; rewrite ?orb_true_r; reflexivity. }
         assert (B3 : tbase st2j + tused st' <= N.of_nat (length rs1)) by (rewrite LN1, TB2j'; exact B).
         assert (CAr : cares prog brk (ip st2j) c_rest).
@@ -458,8 +457,8 @@ Section SimI.
           - destruct (NOJ eq_refl) as (-> & _ & _). cbn [app] in CA3.
             match type of CA3 with cares _ _ ?pc _ => assert (EQ : pc = ip st2j) by (cbn [size]; lia) end.
             rewrite EQ in CA3. exact CA3. }
-        specialize (DYr n s1 rs1 D prog brk Kr Ke IV2j RDr ROj LOj B3 CAr).
-        eapply (post_arms_trans st st2j st'); eauto.
+        specialize (DYr n s1 rs1 D prog brk F EF WFF Kr Ke IV1 RDr ROj LOj B3 CAr).
+        eapply (post_arms_trans F st st2j st'); eauto.
         * rewrite (ext_loops _ _ E02j). reflexivity.
         * lia.
   Qed.
@@ -516,11 +515,10 @@ Section SimI2.
         * destruct SH as (-> & ->). auto.
         * left. destruct SH as (-> & C & _). split; [reflexivity|lia].
         * destruct SH as (-> & ->). auto.
-    - intros n s rs D prog brk K IV RD DO LO B CA. destruct n; [exact Logic.I|].
+    - intros n s rs D prog brk F EF WFF K IV RD DO LO B CA. destruct n; [exact Logic.I|].
       change (eval (S n) s (EIf c t elifs els)) with (eval_elifs (eval n) s ((c, t) :: elifs) els).
       cbn [known_expr] in K. apply orb_false_elim in K as [Ka Ke].
       norm_code CA.
-      assert (IV1 : inv st1 D s rs) by (eapply inv_ext; eauto).
       assert (RD1 : forall x, D x = true ->
                  any_arms (reads x) ((c, t) :: elifs) = false /\ any_opt (reads x) els = false).
       { intros x Dx. apply RD in Dx. cbn [reads] in Dx. apply orb_false_elim in Dx. exact Dx. }
@@ -539,16 +537,17 @@ Section SimI2.
       assert (LO1 : any_arms esc ((c, t) :: elifs) || any_opt esc els = true ->
                     loop_okP st1 rs D (asg_arms ((c, t) :: elifs) els)).
       { intros E0. specialize (LO E0). rewrite loop_ok_P in LO.
-        eapply (loop_okP_ext st st1 rs rs D); eauto.
-        destruct RK as [(d & _ & _ & ->)|[(_ & _ & C)|(_ & _ & ->)]]; lia. }
+        apply (loop_okP_ext st st1 rs rs D (fun x => assigns x (EIf c t elifs els)) (asg_arms ((c, t) :: elifs) els) E1 W1);
+          [destruct RK as [(d & _ & _ & ->)|[(_ & _ & C)|(_ & _ & ->)]]; lia|reflexivity|lia|auto|exact LO]. }
       assert (B1 : tbase st1 + tused st2 <= N.of_nat (length rs)) by (rewrite T1; exact B).
       rewrite <- I1 in CA.
-      specialize (DY n s rs D prog brk Ka Ke IV1 RD1 RO LO1 B1 CA).
+      specialize (DY n s rs D prog brk F EF WFF Ka Ke IV RD1 RO LO1 B1 CA).
       unfold post_arms in DY. rewrite (ext_loops _ _ E1) in DY. rewrite I1 in DY.
-      assert (DW : forall x, dirty st2 (fixed_or_none (o_reg res)) D x = true -> dirty st2 r D x = true).
+      assert (EF0 : ext st F) by (eapply ext_trans; eauto).
+      assert (DW : forall x, dirty F (fixed_or_none (o_reg res)) D x = true -> dirty F r D x = true).
       { intros x Hx. destruct RK as [(d & -> & RR & ->)|[(-> & RR & C)|(-> & RR & ->)]]; rewrite RR in Hx; cbn [fixed_or_none] in Hx.
         - exact Hx.
-        - eapply (dirty_absorb st st2 st2); eauto using ext_refl. right. split; [reflexivity|lia].
+        - eapply (dirty_absorbF st); eauto. right. split; [reflexivity|lia].
         - exact Hx. }
       assert (KR : forall k, k < tbase st + tcount st -> Some k <> dest r ->
                      k < tbase st1 + tcount st1 /\ Some k <> o_reg res).
